@@ -618,6 +618,9 @@ class ExprMixin:
 
     def getattr(self, base, attr, node=None):
         base = self.res(base)
+        if attr == '__class__' and isinstance(base, (VTuple, VInt, VBool, VStr, VNone, VFloat)):
+            return VClass({VTuple: 'tuple', VInt: 'int', VBool: 'bool', VStr: 'str', VNone: 'NoneType',
+                           VFloat: 'float'}[type(base)])
         if isinstance(base, VPtr):
             c = self.cell(base)
             if isinstance(c, ObjCell):
